@@ -73,6 +73,9 @@ func (db *DB) checkAndCleanFiles() error {
 				tmap[fd.Num] = true
 				nt++
 			}
+		case storage.TypeTemp:
+			// Left behind by an interrupted table rebuild (see recoverTable).
+			keep = false
 		}
 
 		if !keep {
